@@ -76,6 +76,18 @@ func scenarios(prop string, thorough bool) []*Scenario {
 			r = append(r, &Scenario{Name: roleName(role) + "/ready+block-requested", Opt: role, Prefix: append(append([]string{}, ready...), "!request-block1"),
 				Alphabet: alpha, Depth: pick(2, 3), oracle: oracleC14})
 		}
+		// the same stream arriving in pieces (short reads): framing must not depend on how the bytes
+		// are delivered. 7 does not divide the 24-byte header; 1 is the extreme (without the 4 MiB letter).
+		for _, chunk := range []int{7, 1} {
+			a := alpha
+			if chunk == 1 {
+				a = without(alpha, "unknown[4194304]")
+			}
+			role := netsim.Options{TxManager: true, ReadChunk: chunk}
+			r = append(r, &Scenario{Name: fmt.Sprintf("full+txmanager/ready/short-reads-%d", chunk), Opt: role, Prefix: ready, Alphabet: a, Depth: 2, oracle: oracleC14})
+			r = append(r, &Scenario{Name: fmt.Sprintf("full+txmanager/ready+block-requested/short-reads-%d", chunk), Opt: role,
+				Prefix: append(append([]string{}, ready...), "!request-block1"), Alphabet: a, Depth: 1, oracle: oracleC14})
+		}
 		r = append(r, &Scenario{Name: "full/handshake-complete-unverified", Opt: netsim.Options{TxManager: true}, Prefix: []string{"version", "verack"},
 			Alphabet: without(alpha), Depth: pick(2, 3), Extend: []string{"version", "verack"}, ExtendDepth: 13, oracle: oracleC14})
 	}
